@@ -13,7 +13,7 @@ Definition nest_of (w : wto) (n : nat) : list nat :=
 Definition fs_engine (S : N) (F : flow) (w : wto) (delay desc : nat) (use_asm : bool) (fuel : nat)
   : option (est N) :=
   run N (fs_ops S) (fun n a => image (f_rel F n) a) (f_preds F) (nest_of w) (f_entry F)
-      delay desc use_asm (f_asm F) fuel w (f_init F).
+      delay desc use_asm (f_asm F) (f_init F) fuel w.
 
 (* the side conditions of theorem fs_engine_exact, as an executable test *)
 Definition fs_certified (S : N) (F : flow) (w : wto) (use_asm : bool) (e : est N) : bool :=
